@@ -526,17 +526,32 @@ func genArena(r *core.Rand) core.Case {
 			emit("filterip %s ; %s", s1, accList())
 		case 10: // Copy from a source with spare capacity; often twice, then the caller appends to the source
 			a, b := r.Range(-1, s1.l+1), r.Range(-1, s1.l+1)
+			if r.Chance(15) { // an argument at the edge of int (the source has spare capacity behind it)
+				a, b = edgePair(r, s1.l)
+			}
 			emit("copy %d %d %s", a, b, s1)
 			if r.Chance(50) {
-				emit("copy %d %d %s", r.Range(-1, s1.l), r.Range(-1, s1.l+1), s1)
+				a, b = r.Range(-1, s1.l), r.Range(-1, s1.l+1)
+				if r.Chance(15) {
+					a, b = edgePair(r, s1.l)
+				}
+				emit("copy %d %d %s", a, b, s1)
 			}
 			if r.Chance(50) {
 				emit("appendsrc %s ; %d %d", s1, 50+i, 60+i)
 			}
 		case 11:
-			emit("subslice %d %d %s", r.Range(-1, s1.l+1), r.Range(-1, s1.l+1), s1)
+			a, b := r.Range(-1, s1.l+1), r.Range(-1, s1.l+1)
+			if r.Chance(15) {
+				a, b = edgePair(r, s1.l)
+			}
+			emit("subslice %d %d %s", a, b, s1)
 		case 12:
-			emit("remove %d %s", r.Range(-1, s1.l), s1)
+			a := r.Range(-1, s1.l)
+			if r.Chance(15) {
+				a = edgeInt(r, s1.l)
+			}
+			emit("remove %d %s", a, s1)
 		case 14:
 			emit("values %d %s %s", r.Range(1, 3), s1, s2)
 			if r.Chance(40) {
@@ -960,6 +975,16 @@ func classifyArena(c core.Case, out []string) []string {
 			}
 		default:
 			ls = append(ls, "arena "+h[0])
+		}
+		switch h[0] { // int-edge magnitudes of the integer arguments (wave 8 B)
+		case "copy", "subslice", "remove":
+			var args []int
+			for _, t := range h[1 : len(h)-1] {
+				if v, err := strconv.Atoi(t); err == nil {
+					args = append(args, v)
+				}
+			}
+			ls = append(ls, edgeLabel("arena "+h[0], w(h[len(h)-1]).l, args...)...)
 		}
 		if strings.HasPrefix(o, "fresh") {
 			ls = append(ls, "arena result kept in the ledger")
